@@ -114,3 +114,40 @@ Fixpoint pbm_run (clk : positive) (m : amap pbstate) (l : list (Z * pbev)) : lis
     let '(st', x) := pb_step clk st ev in
     match x with Some y => y :: pbm_run clk (update o st' m) r | None => pbm_run clk (update o st' m) r end
   end.
+
+(* ------------------------------------------------------------ user subclasses of psutil.Process *)
+(* A subclass may override public methods.  [ovr]: it overrides cpu_times() with a plain method
+   (no cache_activate attribute); [ov]: what its cpu_times() makes of the library's figures (adds
+   the children's time, returns a dict, ...).  In the code as it is:
+     - cpu_percent() samples through self._proc.cpu_times() (platform layer): untouched;
+     - oneshot() activates the caches through self.cpu_times.cache_activate(self), i.e. through
+       the PUBLIC name: with an overriding subclass this raises AttributeError (and so do as_dict()
+       and every block entry), nothing is activated;
+     - the public cpu_times() answers ov(what the library's cpu_times() answers). *)
+Definition pb_step_sub (ovr : bool) (ov : ptimes -> ptimes) (clk : positive) (st : pbstate) (ev : pbev)
+  : pbstate * option (outcome pbres) :=
+  match ev with
+  | BEnter => if ovr && Nat.eqb (pb_depth st) 0 then (st, Some (Exc AttributeError)) else pb_step clk st ev
+  | BTimes _ =>
+    let '(st', o) := pb_step clk st ev in
+    (st', match o with
+          | Some (Val (BRTimes t)) => Some (Val (BRTimes (ov t)))
+          | x => x
+          end)
+  | _ => pb_step clk st ev
+  end.
+Fixpoint pb_run_sub (ovr : bool) (ov : ptimes -> ptimes) (clk : positive) (st : pbstate) (l : list pbev) : list (outcome pbres) :=
+  match l with
+  | [] => []
+  | ev :: r => let '(st', o) := pb_step_sub ovr ov clk st ev in
+               match o with Some x => x :: pb_run_sub ovr ov clk st' r | None => pb_run_sub ovr ov clk st' r end
+  end.
+(* the cpu_percent() answers of a run *)
+Fixpoint pcts (l : list (outcome pbres)) : list (outcome Q) :=
+  match l with
+  | [] => []
+  | Val (BRPct q) :: r => Val q :: pcts r
+  | Val (BRTimes _) :: r => pcts r
+  | Exc e :: r => Exc e :: pcts r
+  | OutOfModel :: r => OutOfModel :: pcts r
+  end.
